@@ -278,7 +278,7 @@ SearchCasesOf(rev2) ==
 (* --- APPEND / COPY / MOVE / EXPUNGE / NAMESPACE / CAPABILITY ----------------- *)
 AppendCases == {[req |-> [n |-> n], data |-> d] : n \in {0, 10, 4097},
                   d \in {<<>>, <<[uid |-> 1, uidval |-> 1]>>, <<[uid |-> U32MAX, uidval |-> U32MAX]>>,
-                         <<[uid |-> P31, uidval |-> 0]>>, <<[uid |-> 0, uidval |-> 0]>>}}
+                         <<[uid |-> P31, uidval |-> 0]>>}}   \* a UID is never zero: not a value a backend may supply
 USets == {<<<<1, 1>>>>, <<<<1, 3>>, <<7, 7>>>>, <<<<U32MAX1, U32MAX>>>>, <<<<5, 9>>>>, <<<<4, 4>>, <<2, 2>>>>}
 CDs == {<<>>} \cup {<<[uidval |-> v, src |-> s, dst |-> d]>> : v \in {1, U32MAX}, s \in USets, d \in USets}
 Xps == {<<>>, <<1>>, <<3, 2, 1>>, <<1, 1, 1>>, <<U32MAX>>}
